@@ -126,6 +126,11 @@ func (s *Sorter) Reset() {
 		s.chunks = s.chunks[:0]
 	}
 	if s.cleanups != nil {
+		// the spill files of the previous table are of no use any more: Close only runs the
+		// cleanups that are still listed
+		for _, f := range s.cleanups {
+			f()
+		}
 		s.cleanups = s.cleanups[:0]
 	}
 }
